@@ -429,19 +429,21 @@ impl<Aux> Vm<'_, Aux> {
                     })?;
                 }
                 Instruction::SetProperty => {
-                    let [key, mut instance, value] = self.runtime_data.value_stack.pop_n::<3>();
-                    let table = get_table_mut(&mut instance).map_err(|err| {
-                        payload_to_error(err, src_ptr, &self.runtime_data.call_stack)
-                    })?;
-                    table
-                        .insert(key, value)
-                        .map_err(|err| {
+                    // the operands stay on the stack (reachable for the collector) while the
+                    // table may allocate
+                    let key = self.runtime_data.value_stack.peek_last(0);
+                    let mut instance = self.runtime_data.value_stack.peek_last(1);
+                    let value = self.runtime_data.value_stack.peek_last(2);
+                    let res = get_table_mut(&mut instance).and_then(|table| {
+                        table.insert(key, value).map_err(|err| {
                             debug!("Failed to insert value {:?}", err);
                             ExecutionErrorPayload::OutOfMemory
                         })
-                        .map_err(|err| {
-                            payload_to_error(err, src_ptr, &self.runtime_data.call_stack)
-                        })?;
+                    });
+                    self.runtime_data.value_stack.pop_n::<3>();
+                    res.map_err(|err| {
+                        payload_to_error(err, src_ptr, &self.runtime_data.call_stack)
+                    })?;
                 }
                 Instruction::BeginForEach => {
                     instr_execution::begin_for_each(self, &program.bytecode, instr_ptr).map_err(
@@ -695,7 +697,10 @@ impl<Aux> Vm<'_, Aux> {
                     payload_to_error(err, src_ptr, &self.runtime_data.call_stack)
                 })?,
                 Instruction::NthRow => {
-                    let [i, mut instance] = self.runtime_data.value_stack.pop_n::<2>();
+                    // the operands stay on the stack (reachable for the collector) until the row
+                    // has been built
+                    let i = self.runtime_data.value_stack.peek_last(0);
+                    let mut instance = self.runtime_data.value_stack.peek_last(1);
                     let table = get_table_mut(&mut instance).map_err(|err| {
                         payload_to_error(err, src_ptr, &self.runtime_data.call_stack)
                     })?;
@@ -735,6 +740,8 @@ impl<Aux> Vm<'_, Aux> {
                         let v = self.init_string("value")?;
                         row_table.insert(Value::Object(k.0), key)?;
                         row_table.insert(Value::Object(v.0), value)?;
+                        // the row replaces the operands
+                        self.runtime_data.value_stack.pop_n::<2>();
                         self.stack_push(Value::Object(row.0))?;
                         Ok(())
                     })()
@@ -743,12 +750,13 @@ impl<Aux> Vm<'_, Aux> {
                     })?;
                 }
                 Instruction::AppendTable => {
-                    let mut instance = self.stack_pop();
-                    let value = self.stack_pop();
-                    let table = get_table_mut(&mut instance).map_err(|err| {
-                        payload_to_error(err, src_ptr, &self.runtime_data.call_stack)
-                    })?;
-                    table.append(value).map_err(|err| {
+                    // the operands stay on the stack (reachable for the collector) while the
+                    // table may allocate
+                    let mut instance = self.runtime_data.value_stack.peek_last(0);
+                    let value = self.runtime_data.value_stack.peek_last(1);
+                    let res = get_table_mut(&mut instance).and_then(|table| table.append(value));
+                    self.runtime_data.value_stack.pop_n::<2>();
+                    res.map_err(|err| {
                         payload_to_error(err, src_ptr, &self.runtime_data.call_stack)
                     })?;
                 }
